@@ -137,11 +137,13 @@ class Spy:
 
 
 # ---------------------------------------------------------------------------------------------------
-def on_policy_runs(spy, rng, which):
+def on_policy_runs(spy, rng, which, variant=0):
     import gymnasium as gym
     import optax
     from flax import nnx
     seed = int(rng.integers(0, 1000))
+    steps_kw = [dict(policy_gradient_steps=1, value_gradient_steps=1), dict(policy_gradient_steps=2, value_gradient_steps=3)][variant % 2]   # defaults and several steps
+    spy.context += f" {steps_kw}"
 
     def seeded(env):
         env.reset(seed=seed)
@@ -157,11 +159,11 @@ def on_policy_runs(spy, rng, which):
         if which == "reinforce":
             from rl_blox.algorithm.reinforce import train_reinforce
             train_reinforce(base, st.policy, st.policy_optimizer, st.value_function, st.value_function_optimizer, seed=seed, total_timesteps=60,
-                            steps_per_update=20, gamma=0.99, progress_bar=False)
+                            steps_per_update=20, gamma=0.99, progress_bar=False, **steps_kw)
         elif which == "actor_critic":
             from rl_blox.algorithm.actor_critic import train_ac
             train_ac(base, st.policy, st.policy_optimizer, st.value_function, st.value_function_optimizer, seed=seed, total_timesteps=60,
-                     steps_per_update=20, gamma=0.99, progress_bar=False)
+                     steps_per_update=20, gamma=0.99, progress_bar=False, **steps_kw)
         else:
             from rl_blox.algorithm.a2c import train_a2c
             envs = gym.vector.SyncVectorEnv([lambda: gym.make("InvertedPendulum-v5") for _ in range(2)])
@@ -169,7 +171,7 @@ def on_policy_runs(spy, rng, which):
             envs.reset(seed=seed)
             envs.action_space.seed(seed)
             train_a2c(envs, st.policy, st.policy_optimizer, st.value_function, st.value_function_optimizer, seed=seed, total_timesteps=40,
-                      steps_per_update=5, log_frequency=None, progress_bar=False)
+                      steps_per_update=5, log_frequency=None, progress_bar=False, **steps_kw)
     else:
         from rl_blox.algorithm.ppo import train_ppo
         from rl_blox.blox.function_approximator.mlp import MLP
@@ -210,18 +212,37 @@ def main(chk):
                 extra = {"pd": int(rng.choice([1, 2])), "tuf": int(rng.choice([2, 3])), "td": int(rng.choice([2, 3])), "tnd": int(rng.choice([1, 2])),
                          "uf": int(rng.choice([1, 2]))}
                 mods_ref, snaps_ref = {}, []
-                spy.run_mods, spy.snaps, spy.context = mods_ref, snaps_ref, f"train_{name}"
+                spy.run_mods, spy.snaps, spy.context = mods_ref, snaps_ref, f"train_{name} #{len(loop_recs)}"
                 first = len(spy.calls)
                 res = tr.run(name, script, total, warm=warm, seed=int(rng.integers(0, 1000)), extra=dict(extra, mods_ref=mods_ref, snaps_ref=snaps_ref))
                 case = {"routine": name, "script": script, "total_timesteps": total, "learning_starts": warm, **extra}
                 chk.case(("off", str(case)))
                 chk.count("runs_" + name)
                 loop_recs.append((case, res, spy.calls[first:]))
+        # targets created by the routines themselves (no target passed in): every module a routine returns has its own storage
+        for name in ["nature_dqn", "ddqn", "per", "ddpg", "td3", "td3_lap", "sac", "td7", "mrq"]:
+            from flax import nnx
+            mods_ref, snaps_ref = {}, []
+            spy.run_mods, spy.snaps, spy.context = mods_ref, snaps_ref, f"train_{name} (own targets) #{len(loop_recs)}"
+            res = tr.run(name, [(3, "term"), (2, "trunc")], 8, warm=2, seed=int(rng.integers(0, 1000)),
+                         extra={"own_targets": True, "pd": 1, "td": 2, "tuf": 2, "mods_ref": mods_ref, "snaps_ref": snaps_ref})
+            rm = res.get("result_modules") or {}
+            chk.case(("own-targets", name))
+            chk.count("own_target_runs")
+            names_ = sorted(rm)
+            idsets = {n_: {id(v) for _, v in variables(rm[n_])} for n_ in names_}
+            for ai, a in enumerate(names_):
+                for b in names_[ai + 1:]:
+                    if idsets[a] & idsets[b] and rm[a] is not rm[b]:
+                        chk.fail(f"C05:train_{name}:returned-modules-share-storage", "two modules returned by the routine (e.g. a network and the target it created "
+                                 "itself) share parameter storage, so an update of one changes the other", {"routine": name, "modules": [a, b]})
+            if len(names_) < 2:
+                chk.disagree("own-targets", {"routine": name, "what": "the routine returned fewer than two modules", "returned": names_})
         spy.snaps = None
         for name in ON_POLICY:
-            for _ in range(1 if q else 5):
-                spy.context = f"train_{name}"
-                on_policy_runs(spy, rng, name)
+            for v in range(2 if q else 6):
+                spy.context = f"train_{name} #{len(spy.calls)}"
+                on_policy_runs(spy, rng, name, v)
                 chk.case(("on", name, len(spy.calls)))
                 chk.count("runs_" + name)
     finally:
@@ -229,11 +250,12 @@ def main(chk):
 
     # ---- per call: every changed path must be explained by the write-set (spec rule + extracted Coq frame_check)
     exprs, recs, cache = [], [], {}
-    seen_routines = {}
+    seen_routines, seen_any = {}, set()
     for c in spy.calls:
         key = c["routine"]
         chk.count("calls_" + key)
-        sr = seen_routines.setdefault(key, {"calls": 0, "trained_changed": {}})
+        seen_any.add(key)
+        sr = seen_routines.setdefault((key, c["context"]), {"calls": 0, "trained_changed": {}})
         sr["calls"] += 1
         for t, ch in c["trained_changed"].items():
             sr["trained_changed"][t] = sr["trained_changed"].get(t, 0) + int(ch)
@@ -280,12 +302,13 @@ def main(chk):
     chk.count("distinct_frame_shapes", len(exprs))
 
     # ---- an update does change the trained component (aggregated over the calls of each routine)
-    for key, sr in seen_routines.items():
+    for (key, ctx), sr in seen_routines.items():       # per training run: a run in which a routine is called but never moves its component
         for t, n in sr["trained_changed"].items():
             if sr["calls"] >= 2 and n == 0:
-                chk.fail(f"C05:{key}:never-trains", f"{key} never changed {t}, the component it is documented to train, in {sr['calls']} calls", {"routine": key, "component": t})
+                chk.fail(f"C05:{key}:never-trains", f"{key} never changed {t}, the component it is documented to train, in the {sr['calls']} calls of one training run",
+                         {"routine": key, "component": t, "run": ctx})
     for key in SPEC:
-        if key not in seen_routines:
+        if key not in seen_any:
             chk.disagree("routine-table", {"routine": key, "what": "not reached by any training run (renamed, or no longer called)"})
 
     # ---- loop level: online parameters change only inside intercepted update routines (acting / loss evaluation change nothing)
@@ -308,7 +331,10 @@ def main(chk):
                 if not explained.get((i, n)):
                     chk.fail(f"C05:train_{case['routine']}:{n}-outside-update", f"{n} changed in an iteration in which no update routine that trains it was called",
                              {"case": case, "iteration": i, "module": n})
-    chk.sample({"routines_reached": {k: v["calls"] for k, v in seen_routines.items()}})
+    reached = {}
+    for (k, _), v in seen_routines.items():
+        reached[k] = reached.get(k, 0) + v["calls"]
+    chk.sample({"routines_reached": reached})
     return chk.finish(
         rule="every call of the 15 update routines made by the 15 training routines (off-policy on the scripted environment, on-policy on small gym tasks): "
              "variables of every nnx object among the arguments and of every module / optimizer of the run compared bytewise before and after; a changed "
